@@ -1,6 +1,8 @@
 import SeqVerif.Model.SearchSpec
 import SeqVerif.Model.ActiveIndexProofs
 import SeqVerif.Model.ActiveMerge
+import SeqVerif.Model.ActiveReach
+import SeqVerif.Model.RangeGo
 import SeqVerif.Extracted.C02
 /-!
 # C02 - search returns exactly the matching documents, ordered, limited and counted
@@ -129,6 +131,100 @@ theorem c02_revert_inverse (m : List Nat) (size v w : Nat) (h : ActiveIndex.inve
     ActiveIndex.revert m w = v :=
   ActiveIndex.revert_inverse m size v w h
 
+/-! ## every reachable active fraction (C17's append pipeline) -/
+
+/-- **The hypothesis `AWF` is established by the indexing pipeline.**  `SV.Collector.run` is C17's model of
+`appendWorker` (parse metas, `SetMultiple`, `Filter`, `AppendIDs`, token list, `GroupLIDsByToken`,
+`PutLIDsInQueue`).  After *any* history of bulks - ids pairwise distinct inside a bulk, earlier documents re-sent any
+number of times, no nested metas, ids uint64 pairs other than `{0,0}` - the state read as the search side's
+`ActiveIndex.Active` (arrival id table; per token of the token list its queued arrival LIDs, which `GetLIDs` sorts
+and merges - `c02_getLIDs_merge_invariant`) is well-formed. -/
+theorem c02_reachable_active_awf (h : List (List SV.Collector.Meta)) (hd : SV.Collector.DistinctBulks h)
+    (hs : SV.Collector.NonEmptyDocs h) (hg : ActiveReach.GoodIDs h) :
+    ActiveIndex.AWF (ActiveReach.toActive (SV.Collector.run SV.Collector.Active.empty h)) :=
+  ActiveReach.reachable_awf h hd hs hg
+
+/-- ... hence `c02_active_search_eq_spec` applies to every reachable active fraction. -/
+theorem c02_reachable_active_search_eq_spec (h : List (List SV.Collector.Meta)) (hd : SV.Collector.DistinctBulks h)
+    (hs : SV.Collector.NonEmptyDocs h) (hg : ActiveReach.GoodIDs h) (q : Query) (from_ to : Nat) (asc : Bool)
+    (limit : Nat) (withTotal : Bool) :
+    ActiveIndex.search (ActiveReach.toActive (SV.Collector.run SV.Collector.Active.empty h)) q from_ to asc limit
+        withTotal =
+      Spec.search (ActiveIndex.arrivalDocs (ActiveReach.toActive (SV.Collector.run SV.Collector.Active.empty h)))
+        q from_ to asc limit withTotal :=
+  ActiveReach.reachable_search_eq_spec h hd hs hg q from_ to asc limit withTotal
+
+/-- ... and the documents that answer are the delivered ones: with `K = keptRun` (of every bulk the metas whose id the
+fraction does not hold yet, arrival order) the arrival documents have `K`'s ids in `K`'s order, and the document at
+arrival LID `1 + i` carries the token `(field, value)` exactly when `K[i]` has a token `field:value`. -/
+theorem c02_reachable_active_docs (h : List (List SV.Collector.Meta)) (hd : SV.Collector.DistinctBulks h)
+    (hs : SV.Collector.NonEmptyDocs h) :
+    (ActiveIndex.arrivalDocs (ActiveReach.toActive (SV.Collector.run SV.Collector.Active.empty h))).map (·.id) =
+        (ActiveReach.keptRun SV.Collector.Active.empty h).map (fun m => ActiveReach.toID m.id) ∧
+    ∀ i, ∀ (hi : i < (ActiveReach.keptRun SV.Collector.Active.empty h).length), ∀ fv : Bytes × Bytes,
+      fv ∈ (ActiveIndex.arrivalDoc (ActiveReach.toActive (SV.Collector.run SV.Collector.Active.empty h)) (1 + i)).tokens ↔
+        ∃ tok ∈ ((ActiveReach.keptRun SV.Collector.Active.empty h)[i]).tokens, ActiveReach.splitTok tok.bytes = fv :=
+  ActiveReach.reachable_docs h hd hs
+
+/-! ## nested documents (several LIDs share one ID) -/
+
+/-- **What `IndexSearch` returns when several metas share an ID** (nested mapping: the parent meta and one meta per
+nested object carry the same ID and are adjacent in the ids table).  `c02_search_eq_spec` holds with one `Doc` per
+*meta*; spelled out: the IDs come back strictly ordered (each once, the adjacent-ID check of `iterateEvalTree`), every
+returned ID has a meta that matches inside the window, and `total` is the number of matching **metas**. -/
+theorem c02_nested_result (idx : Index) (hwf : WF idx) (hs : SortedDesc idx.ids)
+    (hr : ∀ id ∈ idx.ids, id.rid ≤ maxU64) (q : Query) (from_ to : Nat)
+    (h0 : 0 < from_ ∨ ∀ id ∈ idx.ids, id ≠ ⟨0, 0⟩) (asc : Bool) (limit : Nat) :
+    (EvalTree.search idx q from_ to asc limit true).ids.Pairwise (fun a b => orderLe asc a b = true ∧ a ≠ b) ∧
+    (∀ id ∈ (EvalTree.search idx q from_ to asc limit true).ids,
+        ∃ lid, 1 ≤ lid ∧ lid ≤ idx.ids.length ∧ idAt idx.ids lid = id ∧ hitLid idx q from_ to lid = true) ∧
+    (EvalTree.search idx q from_ to asc limit true).total =
+        ((List.range' 1 idx.ids.length).filter (hitLid idx q from_ to)).length := by
+  rw [search_eq_spec idx hwf hs hr q from_ to h0 asc limit true]
+  refine ⟨Spec.search_ids_strict _ _ _ _ _ _ _, ?_, ?_⟩
+  · intro id hid
+    rcases Spec.search_ids_sound _ _ _ _ _ _ _ id hid with ⟨d, hd, hid', hw, hm⟩
+    unfold docsOf at hd
+    rcases List.mem_map.mp hd with ⟨lid, hl, rfl⟩
+    have := List.mem_range'_1.mp hl
+    exact ⟨lid, this.1, by omega, hid', by simp [hitLid, hw, hm]⟩
+  · have := congrArg List.length (hits_ids idx q from_ to)
+    simp only [List.length_map] at this
+    simp only [Spec.search, if_true]
+    exact this
+
+/-- one document `{5,1}` with two nested objects: three metas (LIDs 1..3) share the ID; the parent's token
+`trace_id:1` is copied to every meta (as `indexer.Index` does), `span_id:1` / `span_id:2` sit on the nested metas -/
+def exNested : Index :=
+  { ids := [⟨5, 1⟩, ⟨5, 1⟩, ⟨5, 1⟩],
+    toks := [⟨[116], [49], [1, 2, 3]⟩, ⟨[115], [49], [2]⟩, ⟨[115], [50], [3]⟩] }
+
+/-- **Witness: `total` is not the number of matching documents.**  The query `trace_id:1` matches the single stored
+document; `IndexSearch` returns its ID once but `total = 3`. -/
+theorem c02_nested_total_witness :
+    EvalTree.search exNested (.leaf (.lit [116] [.text [49]])) 0 10 false 10 true = ⟨[⟨5, 1⟩], 3⟩ ∧
+    ((hits (docsOf exNested) (.leaf (.lit [116] [.text [49]])) 0 10).map (·.id)).eraseDups.length = 1 := by
+  constructor <;> decide +kernel
+
+/-! ## nodeRange with Go's integer types -/
+
+/-- **The `nodeRange` wrap is unreachable from `getLIDsBorders`.**  `RangeGo.drain` calls the Go-typed `Next`
+(`cur int`, `uint32(cur)`) at most `fuel` times.  For every ids table with `Len() ≤ MaxUint32`, every window and both
+directions, the range node of a NOT over the computed borders reports its end and has yielded `rangeNode`. -/
+theorem c02_range_wrap_unreachable (from_ to : Nat) (tbl : List ID) (hlen : tbl.length < RangeGo.maxU32) (rev : Bool) :
+    RangeGo.drain rev (RangeGo.newRange rev (getLIDsBorders from_ to tbl).1 (getLIDsBorders from_ to tbl).2).1
+        ((getLIDsBorders from_ to tbl).2 + 2)
+        (RangeGo.newRange rev (getLIDsBorders from_ to tbl).1 (getLIDsBorders from_ to tbl).2).2 =
+      (rangeNode rev (getLIDsBorders from_ to tbl).1 (getLIDsBorders from_ to tbl).2, true) :=
+  RangeGo.borders_range_terminates from_ to tbl hlen rev
+
+/-- outside those borders the node does wrap: ascending to `MaxUint32` continues with 0, 1, 2; descending to 0
+continues with `MaxUint32` -/
+theorem c02_range_wrap_witness :
+    RangeGo.drain false RangeGo.maxU32 4 (RangeGo.maxU32 : Int) = ([RangeGo.maxU32, 0, 1, 2], false) ∧
+    RangeGo.drain true 0 3 (1 : Int) = ([1, 0, RangeGo.maxU32], false) :=
+  RangeGo.wrap_witness
+
 /-! ## what `Spec.search` promises (so that the equalities above say what the property says) -/
 
 /-- the result is strictly ordered in the requested direction (hence free of repetitions) and not longer than
@@ -249,5 +345,17 @@ example : ActiveIndex.KeySorted exActive.ids [3, 2] ∧ ActiveIndex.KeySorted ex
 
 example : ActiveIndex.search exActive (.leaf (.lit [97] [.star])) 6 9 false 5 true = ⟨[⟨7, 2⟩, ⟨7, 1⟩], 2⟩ := by
   decide +kernel
+
+/-- a history that meets the hypotheses of `c02_reachable_active_awf`: two bulks, the second re-delivers a document -/
+def exHistory : List (List SV.Collector.Meta) :=
+  [[⟨(7, 1), 10, [⟨[95, 97, 108, 108, 95], []⟩, ⟨[97], [120]⟩], 1⟩, ⟨(5, 9), 8, [⟨[95, 97, 108, 108, 95], []⟩], 2⟩],
+   [⟨(7, 1), 10, [⟨[95, 97, 108, 108, 95], []⟩, ⟨[97], [120]⟩], 1⟩, ⟨(7, 2), 9, [⟨[95, 97, 108, 108, 95], []⟩, ⟨[97], [120]⟩], 3⟩]]
+
+example : SV.Collector.DistinctBulks exHistory ∧ SV.Collector.NonEmptyDocs exHistory ∧ ActiveReach.GoodIDs exHistory := by
+  refine ⟨?_, ?_, ?_⟩
+  · intro b hb; simp [exHistory] at hb; rcases hb with rfl | rfl <;> decide
+  · intro b hb m hm; simp [exHistory] at hb; rcases hb with rfl | rfl <;> simp at hm <;> rcases hm with rfl | rfl <;> decide
+  · intro b hb m hm; simp [exHistory] at hb
+    rcases hb with rfl | rfl <;> simp at hm <;> rcases hm with rfl | rfl <;> simp [maxU64]
 
 end SV.Props.C02
